@@ -263,10 +263,17 @@ Definition deliver_cosmos (p : params) (bal gas : Z) (fee : fcoins) (tip : optio
   | inr paid => if bal - paid <? send then Failed paid 0 else Executed paid []
   end.
 
-(** getTxPriority of the dynamic fee checker (CheckTx response; not an observable of C07) *)
-Definition cosmos_priority (p : params) (gas : Z) (fee : fcoins) (tip : option Z) : Z :=
-  let pr := Z.quot (cosmos_eff_price p gas fee tip - p_base p) 1000000 in
+(** tx priority set by the fee decorators (what CheckTx reports to the mempool):
+    (effective price - base fee) / DefaultPriorityReduction, MaxInt64 when it does
+    not fit; for an eth transaction the minimum over its messages *)
+Definition prio_of (tip_price : Z) : Z :=
+  let pr := Z.quot tip_price 1000000 in
   if (pr <=? max_int64) && (- max_int64 - 1 <=? pr) then pr else max_int64.
+Definition cosmos_priority (p : params) (gas : Z) (fee : fcoins) (tip : option Z) : Z :=
+  prio_of (cosmos_eff_price p gas fee tip - p_base p).
+
+Definition eth_priority (p : params) (ms : list emsg) : Z :=
+  fold_left (fun acc m => Z.min acc (prio_of (eff_price (p_base p) m - p_base p))) ms max_int64.
 
 (** ---- transactions, observations, correspondence ---- *)
 Inductive txin :=
@@ -274,8 +281,9 @@ Inductive txin :=
 | CosmosTx (gas : Z) (fee : fcoins) (tip : option Z) (send : Z).
 
 Record obs := mkobs {
-  o_code : N;           (* 0 executed, 1-3 rejected by the ante chain, 4 ante passed but execution failed *)
-  o_check : N;          (* class of the ante chain's verdict in CheckTx mode *)
+  o_code : N;           (* 0 executed, 1 refused by the ante chain (no effect), 4 ante passed but execution failed *)
+  o_check : N;          (* the ante chain in CheckTx mode: 0 passes, 1 refuses *)
+  o_prio : Z;           (* priority the ante chain sets in CheckTx mode (0 when it refuses) *)
   o_wanted : Z;         (* response GasWanted (eth route, ante passed) *)
   o_used : Z;           (* response GasUsed (eth route, ante passed) *)
   o_net : Z;            (* sender's balance decrease, value moved excluded *)
@@ -307,16 +315,28 @@ Definition result_net (r : result) : Z :=
 
 Definition is_eth (t : txin) : bool := match t with EthTx _ _ => true | _ => false end.
 
+Definition check_prio (p : params) (bal : Z) (t : txin) : Z :=
+  if negb (N.eqb (check_code p bal t) OK) then 0 else
+  match t with
+  | EthTx ms _ => eth_priority p ms
+  | CosmosTx gas fee tip _ => cosmos_priority p gas fee tip
+  end.
+
+(** the harness records only accepted / refused for the ante verdicts: which of
+    several applicable errors is reported is not an observable of the property *)
+Definition coarse (c : N) : N := if N.eqb c OK then OK else 1%N.
+
 Definition observe (p : params) (bal coll : Z) (t : txin) : obs :=
   let r := deliver p bal coll t in
-  let chk := check_code p bal t in
+  let chk := coarse (check_code p bal t) in
+  let pr := check_prio p bal t in
   match r with
-  | Rejected c => mkobs c chk 0 0 0 0 []
-  | Failed d g => mkobs EExec chk g g d d []
+  | Rejected c => mkobs (coarse c) chk pr 0 0 0 0 []
+  | Failed d g => mkobs EExec chk pr g g d d []
   | Executed d l =>
       match t with
-      | EthTx ms _ => mkobs OK chk (zsum (map m_gas ms)) (zsum (map fst l)) (result_net r) (result_net r) (map fst l)
-      | CosmosTx _ _ _ _ => mkobs OK chk 0 0 (result_net r) (result_net r) []
+      | EthTx ms _ => mkobs OK chk pr (zsum (map m_gas ms)) (zsum (map fst l)) (result_net r) (result_net r) (map fst l)
+      | CosmosTx _ _ _ _ => mkobs OK chk pr 0 0 (result_net r) (result_net r) []
       end
   end.
 
